@@ -18,13 +18,14 @@
 (*   done / done_again   run() returned (again)                            *)
 (*   kill     the harness killed the process (os._exit)                    *)
 (*   ll_outside  the likelihood was called outside the prior support       *)
+(*   ckpt_call   checkpoint(periodic, force) returned (ScheduleOps.tla)     *)
 (*                                                                         *)
 (* The variables FOLLOW THE LOGGED STATE; P-clauses (clauses of the         *)
 (* properties) are evaluated on it, M-clauses compare it with what the     *)
 (* specification's operations compute.  Failures are printed and the walk  *)
 (* continues: Say(kind, property, clause).                                 *)
 (***************************************************************************)
-EXTENDS NestedSampler, IOUtils
+EXTENDS NestedSampler, IOUtils, ScheduleOps
 
 J   == JsonDeserialize(IOEnv.TRACE_FILE)
 Ev  == J.ev
@@ -209,6 +210,22 @@ EvCkpt(e) ==
     /\ P("C12", "sampling_time_cumulative", e.time_ok)
     /\ Mark("ckpt") /\ UNCHANGED <<s>>
 
+\* ------------------------------------------------------------- ckpt_call
+\* every call of checkpoint(periodic, force): the schedule of Schedule.tla
+\* (cur/last in iterations, or in milliseconds of this process's clock;
+\* near = the time comparison is within the observer's clock skew)
+CkptCallClauses(e) ==
+    LET due == Due(e.cur, e.last0, e.interval) IN
+    /\ M("schedule: a file is written iff the call is a signal's, forced, or due (ScheduleOps.Writes)",
+         e.near \/ e.wrote = Writes(e.periodic, e.force, due))
+    /\ M("schedule: _last_checkpoint after the call is not ScheduleOps.LastAfter",
+         e.near \/ e.last1 = LastAfter(e.periodic, e.force, due, e.cur, e.last0))
+    /\ M("schedule: _last_checkpoint lies in the future", e.last0 <= e.cur)
+
+EvCkptCall(e) ==
+    /\ CkptCallClauses(e)
+    /\ UNCHANGED <<s, rank, ok, disk, aux>>
+
 \* ---------------------------------------------------------------- resume
 EvResume(e) ==
     /\ P("C12", "resumed_from_a_checkpoint", disk # Null)
@@ -224,6 +241,7 @@ EvResume(e) ==
                                                  /\ e.n_ins = Len(d.ins) /\ e.fin = d.fin)
                 /\ P("C12", "restored_evaluations", e.evals = d.evals)
                 /\ P("C12", "restored_digest:" \o e.digest_diff, e.digest_ok \/ k # Len(disk))
+                /\ M("schedule: restored _last_checkpoint is not the pickled one", e.sched_ok \/ k # Len(disk))
        ELSE s' = s
     /\ rank' = RankWith(e) /\ ok' = OkWith(e, TRUE)
     /\ aux' = [aux EXCEPT !.last = "resume", !.itsum = e.it_sum, !.obs.it = -1] /\ UNCHANGED disk
@@ -296,6 +314,7 @@ TraceStep ==
            [] e.ev = "pbatch"     -> EvPBatch(e)
            [] e.ev = "ppool"      -> EvPPool(e)
            [] e.ev = "ckpt"       -> EvCkpt(e)
+           [] e.ev = "ckpt_call"  -> EvCkptCall(e)
            [] e.ev = "resume"     -> EvResume(e)
            [] e.ev = "finalise"   -> EvFinalise(e)
            [] e.ev = "done"       -> EvDone(e)
